@@ -59,3 +59,23 @@ Proof.
     + destruct (closed s); discriminate.
     + apply IH; assumption.
 Qed.
+
+(* sequencing is associative up to running *)
+Lemma resume_pbind_assoc {A B C} (p: proc A) (f: A -> proc B) (g: B -> proc C) : forall s a s1,
+  resume p s = inr (Ok a, s1) -> resume (pbind (pbind p f) g) s = resume (pbind (f a) g) s1.
+Proof.
+  induction p as [a0|e|n k IH|k IH|d k IH|k IH|k IH|k IH|k IH]; intros s a s1 H; cbn [pbind resume] in *.
+  - inversion H; subst. reflexivity.
+  - discriminate.
+  - destruct (attempt s n) as [[c| |] sm]; try discriminate. apply IH; assumption.
+  - apply IH; assumption.
+  - apply IH; assumption.
+  - apply IH; assumption.
+  - apply IH; assumption.
+  - destruct (Nat.eqb (length (avail s)) 0).
+    + destruct (closed s); [apply IH; assumption|discriminate].
+    + apply IH; assumption.
+  - destruct (Nat.eqb (length (avail s)) 0).
+    + destruct (closed s); discriminate.
+    + apply IH; assumption.
+Qed.
